@@ -178,9 +178,16 @@ def decomp565 (a b : E) : E × E × E :=
    up 6 (.or (.shl (.and b (.lit 7)) 5) (.shr (.and a (.lit 224)) 3)),
    up 5 (.and b (.lit 248)))
 
-/-- `compress565(r, g, b)` → the two bytes (after the repair of the R/B placement: the first
-component goes to the low five bits of the first byte, as `decomp565` reads it). -/
+/-- `compress565(r, g, b)` → the two bytes, AS CODED: the first argument goes to the high five bits
+of the second byte and the third to the low five bits of the first byte — the opposite of where
+`decomp565` looks for them (open finding `codec-RGB565` / `codec-BGR565`; the repository's reference
+files pin these bytes, so the encoder could not be repaired). -/
 def compress565 (r g b : E) : E × E :=
+  (.or (.and (.shl g 3) (.lit 224)) (.shr b 3),
+   .or (.and r (.lit 248)) (.shr g 5))
+
+/-- The encoder that agrees with `decomp565` (and with the files written by VTFEdit): not the code. -/
+def compress565Fixed (r g b : E) : E × E :=
   (.or (.and (.shl g 3) (.lit 224)) (.shr r 3),
    .or (.and b (.lit 248)) (.shr g 5))
 
@@ -358,6 +365,44 @@ def saveImg (c : Codec) (px : List Nat) : List Nat :=
 def loadImg (c : Codec) (data : List Nat) : List Nat :=
   (chunks c.save.length data).flatMap fun q => (loadF c q).toList
 
+/-! ### The documented quantisation of each writable format
+
+What a pixel becomes when it is stored in the format and read back: the top `n` bits of a channel
+are kept and replicated into the freed low bits (`q5`, `q6`, `q4`), one-bit alpha is `0`/`255`
+(`q1`), greyscale formats store the floor mean of `r g b`, formats without a channel read it back
+as its constant, and the "bluescreen" formats make a pixel fully transparent black when its alpha
+is below 128 (pure blue `(0,0,255)` is the on-disk code for that, so opaque pure blue is lost too). -/
+
+def q5 (x : Nat) : Nat := (x &&& 248) ||| (x >>> 5)
+def q6 (x : Nat) : Nat := (x &&& 252) ||| (x >>> 6)
+def q4 (x : Nat) : Nat := (x &&& 240) ||| (x >>> 4)
+def q1 (x : Nat) : Nat := if x &&& 128 ≠ 0 then 255 else 0
+def greyOf (p : Px) : Nat := (p.r + p.g + p.b) / 3
+
+def quant (ind : Nat) (p : Px) : Px :=
+  if ind = 2 ∨ ind = 3 ∨ ind = 16 then ⟨p.r, p.g, p.b, 255⟩
+  else if ind = 4 ∨ ind = 17 then ⟨q5 p.r, q6 p.g, q5 p.b, 255⟩   -- documented; NOT what the code does
+  else if ind = 18 then ⟨q5 p.r, q5 p.g, q5 p.b, 255⟩
+  else if ind = 21 then ⟨q5 p.r, q5 p.g, q5 p.b, q1 p.a⟩
+  else if ind = 19 then ⟨q4 p.r, q4 p.g, q4 p.b, q4 p.a⟩
+  else if ind = 5 then ⟨greyOf p, greyOf p, greyOf p, 255⟩
+  else if ind = 6 then ⟨greyOf p, greyOf p, greyOf p, p.a⟩
+  else if ind = 8 then ⟨0, 0, 0, p.a⟩
+  else if ind = 22 then ⟨p.r, p.g, 0, 255⟩
+  else if ind = 9 ∨ ind = 10 then
+    (if p.a < 128 ∨ (p.r = 0 ∧ p.g = 0 ∧ p.b = 255) then ⟨0, 0, 0, 0⟩ else ⟨p.r, p.g, p.b, 255⟩)
+  else p
+
+/-- the formats `VTF.save` can write with the pure-Python codecs. -/
+def writableInds : List Nat := [0, 1, 2, 3, 4, 5, 6, 8, 9, 10, 11, 12, 16, 17, 18, 19, 21, 22, 23, 26]
+
+/-- the writable formats whose codec obeys the round-trip law: all but RGB565 (4) and BGR565 (17). -/
+def lawfulInds : List Nat := [0, 1, 2, 3, 5, 6, 8, 9, 10, 11, 12, 16, 18, 19, 21, 22, 23, 26]
+
+/-- RGB565 / BGR565 with the encoder that agrees with the decoder (not the code: see `compress565`). -/
+def fixedRGB565 : Codec := ⟨4, true, true, loadRGB565, let c := compress565Fixed R G B; [c.1, c.2]⟩
+def fixedBGR565 : Codec := ⟨17, true, true, loadBGR565, let c := compress565Fixed B G R; [c.1, c.2]⟩
+
 /-! ## 3. Mipmaps -/
 
 /-- The dimension chain created by `VTF.__init__`: halve both until either is `≤ 1`
@@ -368,8 +413,11 @@ def ctorLevelsAux : Nat → Nat → Nat → List (Nat × Nat)
 
 def ctorLevels (w h : Nat) : List (Nat × Nat) := ctorLevelsAux w w h
 
-/-- `VTF.mipmap_count` as set by `__init__` (after the repair: the number of levels created). -/
-def ctorMipCount (w h : Nat) : Nat := (ctorLevels w h).length
+/-- `VTF.mipmap_count` as set by `__init__`: `max(index of the last level created, 1)` — one less
+than the number of levels created (the smallest level exists in the object but is neither declared
+nor saved; the repository's reference files pin this), except that a texture with a side of 1 has its
+single level declared (repair `a449d79`). -/
+def ctorMipCount (w h : Nat) : Nat := max ((ctorLevels w h).length - 1) 1
 
 /-- The size `VTF.read` gives to mipmap `k`. -/
 def readerDims (w h k : Nat) : Nat × Nat := (max (w >>> k) 1, max (h >>> k) 1)
